@@ -1,6 +1,7 @@
 package c03
 
 import (
+	"encoding/json"
 	"fmt"
 	"math/bits"
 	"sort"
@@ -12,6 +13,8 @@ import (
 	"github.com/spikeekips/mitum/base"
 	"github.com/spikeekips/mitum/isaac"
 	"github.com/spikeekips/mitum/util"
+	"github.com/spikeekips/mitum/util/encoder"
+	jsonenc "github.com/spikeekips/mitum/util/encoder/json"
 	"github.com/spikeekips/mitum/util/valuehash"
 	"verifharness/vlib"
 )
@@ -71,7 +74,20 @@ type world struct {
 	// kind 0 = next round, 1 = next height, 2 = other stage of the same point
 	ffacts [3][2]base.BallotFact
 	fsigns [3][2][]base.BallotSignFact // [kind][letter][member]
+	csigns [nCrafted][2][]base.BallotSignFact
 }
+
+// crafted sign facts, [kind][letter][member]: the ballot fact is the world's
+// fact `letter`, the sign is not the member's sign of that fact
+const (
+	cfOtherFact  = iota // the member's own genuine sign of the other fact of this stage point
+	cfOtherPoint        // the member's own genuine sign of the same-letter fact of the next round
+	cfOtherKey          // the member's address with the next member's signer key and signature (of the same fact)
+	cfOtherSig          // the member's address and key with the next member's signature (of the same fact)
+	nCrafted
+)
+
+var craftedName = []string{"replayed-sign-of-other-fact", "replayed-sign-of-other-round", "sign-with-other-members-key", "sign-with-other-members-signature"}
 
 var foreignName = []string{"other-round", "other-height", "other-stage"}
 
@@ -127,6 +143,92 @@ func (w *world) sign(node int, fact base.BallotFact) base.BallotSignFact {
 	return sf
 }
 
+// wire codec: sign facts reach a node as encoded messages; a crafted message
+// can carry any combination of a ballot fact and a node sign.
+var (
+	encOnce sync.Once
+	wireEnc *jsonenc.Encoder
+)
+
+func wire() *jsonenc.Encoder {
+	encOnce.Do(func() {
+		enc := jsonenc.NewEncoder()
+		for _, d := range []encoder.DecodeDetail{
+			{Hint: base.StringAddressHint, Instance: base.StringAddress{}},
+			{Hint: base.MPublickeyHint, Instance: &base.MPublickey{}},
+			{Hint: isaac.INITBallotFactHint, Instance: isaac.INITBallotFact{}},
+			{Hint: isaac.ACCEPTBallotFactHint, Instance: isaac.ACCEPTBallotFact{}},
+			{Hint: isaac.INITBallotSignFactHint, Instance: isaac.INITBallotSignFact{}},
+			{Hint: isaac.ACCEPTBallotSignFactHint, Instance: isaac.ACCEPTBallotSignFact{}},
+		} {
+			if err := enc.Add(d); err != nil {
+				panic(err)
+			}
+		}
+		wireEnc = enc
+	})
+	return wireEnc
+}
+
+// craft decodes the wire message of sign fact src after replacing its ballot
+// fact (fact != nil) and/or fields of its sign taken from the sign of `from`
+// (fields: "signer", "signature", "signed_at"). craft(src, nil, nil) is the
+// plain decoded copy of a genuine sign fact.
+func craft(src base.BallotSignFact, fact base.BallotFact, from base.BallotSignFact, fields ...string) base.BallotSignFact {
+	enc := wire()
+	b, err := enc.Marshal(src)
+	if err != nil {
+		panic(err)
+	}
+	var m map[string]json.RawMessage
+	if err := json.Unmarshal(b, &m); err != nil {
+		panic(err)
+	}
+	if fact != nil {
+		fb, err := enc.Marshal(fact)
+		if err != nil {
+			panic(err)
+		}
+		m["fact"] = fb
+	}
+	if from != nil {
+		fb, err := enc.Marshal(from)
+		if err != nil {
+			panic(err)
+		}
+		var fm map[string]json.RawMessage
+		if err := json.Unmarshal(fb, &fm); err != nil {
+			panic(err)
+		}
+		var ssign, fsign map[string]json.RawMessage
+		if err := json.Unmarshal(m["sign"], &ssign); err != nil {
+			panic(err)
+		}
+		if err := json.Unmarshal(fm["sign"], &fsign); err != nil {
+			panic(err)
+		}
+		for _, f := range fields {
+			ssign[f] = fsign[f]
+		}
+		if m["sign"], err = json.Marshal(ssign); err != nil {
+			panic(err)
+		}
+	}
+	nb, err := json.Marshal(m)
+	if err != nil {
+		panic(err)
+	}
+	i, err := enc.Decode(nb)
+	if err != nil {
+		panic(fmt.Sprintf("decode crafted sign fact: %+v", err))
+	}
+	sf, ok := i.(base.BallotSignFact)
+	if !ok {
+		panic(fmt.Sprintf("crafted sign fact decodes to %T", i))
+	}
+	return sf
+}
+
 func newWorld(n, t10 int, stage base.Stage) *world {
 	w := &world{n: n, t10: t10, th: base.Threshold(float64(t10) / 10), stage: stage}
 	w.q = (n*t10 + 999) / 1000
@@ -177,6 +279,33 @@ func newWorld(n, t10 int, stage base.Stage) *world {
 			for i := 0; i < n; i++ {
 				w.fsigns[fk][l][i] = w.sign(i, w.ffacts[fk][l])
 			}
+		}
+	}
+	// every genuine sign fact is used in its decoded wire form (what a node
+	// receives), so a crafted message carries byte-identical signs
+	for l := 0; l < 2; l++ {
+		for i := range w.psigns[l] {
+			w.psigns[l][i] = craft(w.psigns[l][i], nil, nil)
+			if err := w.psigns[l][i].IsValid(networkID); err != nil {
+				panic(fmt.Sprintf("decoded genuine sign fact invalid: %+v", err))
+			}
+		}
+		for fk := 0; fk < 3; fk++ {
+			for i := range w.fsigns[fk][l] {
+				w.fsigns[fk][l][i] = craft(w.fsigns[fk][l][i], nil, nil)
+			}
+		}
+	}
+	for l := 0; l < 2; l++ {
+		for c := 0; c < nCrafted; c++ {
+			w.csigns[c][l] = make([]base.BallotSignFact, n)
+		}
+		for i := 0; i < n; i++ {
+			nx := (i + 1) % n
+			w.csigns[cfOtherFact][l][i] = craft(w.psigns[1-l][i], w.pfacts[l], nil)
+			w.csigns[cfOtherPoint][l][i] = craft(w.fsigns[0][l][i], w.pfacts[l], nil)
+			w.csigns[cfOtherKey][l][i] = craft(w.psigns[l][i], nil, w.psigns[l][nx], "signer", "signature", "signed_at")
+			w.csigns[cfOtherSig][l][i] = craft(w.psigns[l][i], nil, w.psigns[l][nx], "signature", "signed_at")
 		}
 	}
 	w.exfacts = make([]isaac.SuffrageExpelFact, n)
@@ -381,6 +510,7 @@ type accepted struct {
 	pattern int
 	signers [][]int
 	extra   string
+	cmask   uint // members whose sign fact in the voteproof is crafted (they never signed that fact)
 	fpt     int  // 0: majority fact of the voteproof's own point; 1..3: of another round / height / stage
 	xmask   uint // members whose sign fact in the voteproof is a vote of another point (not a vote for this stage point)
 }
@@ -416,6 +546,9 @@ func (a accepted) witness(w *world) map[string]any {
 	}
 	if a.xmask != 0 {
 		m["sign_facts_that_are_votes_of_another_point"] = set(a.xmask)
+	}
+	if a.cmask != 0 {
+		m["crafted_sign_facts_of_members_who_never_signed_this_fact"] = set(a.cmask)
 	}
 	return m
 }
@@ -520,6 +653,8 @@ type task struct {
 	styles []int
 }
 
+func nst3(r int) int { return pow3(r) }
+
 func pow3(r int) int {
 	p := 1
 	for i := 0; i < r; i++ {
@@ -586,6 +721,8 @@ func (tk task) run(st *stats) []accepted {
 	var curFpt int
 	var curXmask uint
 	var curMajFact base.BallotFact
+	var curCmask uint // crafted voters of the majority fact: counted by the validator, not votes of those members
+	var curCsrcG uint // members whose genuine sign of the OTHER fact of this point is what was replayed
 	try := func(kind, maj, style, pat int, sfs []base.BallotSignFact, fmask, gmask uint, flags []string, extra string, proper bool) {
 		sf := sfacts[style]
 		var o opset
@@ -619,10 +756,11 @@ func (tk task) run(st *stats) []accepted {
 		bind := sf.bind
 		a := accepted{
 			kind: kind, maj: maj, bind: bind, emask: tk.emask, fmask: fmask, gmask: gmask,
-			pattern: pat, signers: o.signers, extra: extra, fpt: curFpt, xmask: curXmask,
+			pattern: pat, signers: o.signers, extra: extra, fpt: curFpt, xmask: curXmask, cmask: curCmask,
 		}
+		a.gmask |= curCsrcG
 		// the shape counts votes for the majority fact whatever point they were cast for
-		vm := fmask
+		vm := fmask | curCmask
 		if curFpt > 0 {
 			vm = curXmask
 			a.fmask = 0 // votes of another point are not votes for this stage point
@@ -630,6 +768,85 @@ func (tk task) run(st *stats) []accepted {
 		a.desc = w.describe(kind, tk.emask, vm, gmask|curXmask, o.minsigns, flags)
 		out = append(out, a)
 	}
+
+	// ---- crafted sign facts -------------------------------------------------
+	// tried before the genuine voteproofs of this task and again after them, so
+	// that acceptance depending on what was validated earlier shows
+	crafted := func(phase string) {
+		if tk.sample != nil {
+			return
+		}
+		sf := sfacts[0]
+		before := len(out)
+		for maj := 0; maj < 2; maj++ {
+			if k == 0 {
+				// every assignment {absent, genuine vote, replayed sign of the other fact}, at least one replayed
+				for code := 0; code < nst3(r); code++ {
+					c := code
+					var sfs []base.BallotSignFact
+					var fm, cm uint
+					for i := 0; i < r; i++ {
+						nd := remaining[i]
+						switch c % 3 {
+						case 1:
+							sfs = append(sfs, sf.signs[maj][nd])
+							fm |= 1 << uint(nd)
+						case 2:
+							sfs = append(sfs, w.csigns[cfOtherFact][maj][nd])
+							cm |= 1 << uint(nd)
+						}
+						c /= 3
+					}
+					if cm == 0 || bits.OnesCount(fm|cm) < w.q-1 {
+						continue
+					}
+					curCmask, curCsrcG = cm, cm
+					try(kindPlain, maj, 0, 0, sfs, fm, 0, []string{craftedName[cfOtherFact]}, phase, false)
+					curCmask, curCsrcG = 0, 0
+				}
+			}
+			kinds := []int{kindPlain}
+			need := w.q
+			if k > 0 {
+				kinds = []int{kindExpel, kindStuck}
+				need = r
+			}
+			if need > r || need < 1 {
+				continue
+			}
+			for _, kind := range kinds {
+				for ck := 0; ck < nCrafted; ck++ {
+					if k == 0 && ck == cfOtherFact {
+						continue // enumerated above
+					}
+					if w.n < 2 && ck >= cfOtherKey {
+						continue // there is no other member
+					}
+					for _, nc := range []int{1, need} { // one crafted vote topping up, or all crafted
+						var sfs []base.BallotSignFact
+						var fm, cm uint
+						for i, nd := range remaining[:need] {
+							if i < need-nc {
+								sfs = append(sfs, sf.signs[maj][nd])
+								fm |= 1 << uint(nd)
+							} else {
+								sfs = append(sfs, w.csigns[ck][maj][nd])
+								cm |= 1 << uint(nd)
+							}
+						}
+						curCmask = cm
+						if ck == cfOtherFact {
+							curCsrcG = cm
+						}
+						try(kind, maj, 0, patRuleRemaining, sfs, fm, 0, []string{craftedName[ck]}, phase, false)
+						curCmask, curCsrcG = 0, 0
+					}
+				}
+			}
+		}
+		st.reasons["crafted-sign-candidates-accepted:"+phase] += len(out) - before
+	}
+	crafted("before the genuine voteproofs of this task")
 
 	nst := pow3(r)
 	statuses := tk.sample
@@ -702,6 +919,8 @@ func (tk task) run(st *stats) []accepted {
 			}
 		}
 	}
+
+	crafted("after the genuine voteproofs of this task")
 
 	// ---- votes of a neighbouring point packed into a voteproof of this point --
 	// Honest nodes vote for other facts in the next round, at the next height
@@ -918,10 +1137,11 @@ func pairUp(w *world, acc []accepted, found map[string]*violation, counts map[st
 func TestC03(t *testing.T) {
 	r := vlib.Start(t, "C03", vlib.LevelExploration)
 	defer r.Finish()
-	r.SetRule("world = (n real key pairs as suffrage, threshold t, stage INIT/ACCEPT, two facts A and B at one stage point, real signed sign facts of every node for both facts, real expel operations assembled from real node signatures); case = one candidate voteproof (plain / expel / stuck; majority A, B or none; every assignment {absent, votes majority fact, votes other fact, expelled} of the nodes; 8 expel-signer patterns; ballot facts with and without expel facts; variants with repeated sign facts, non-member, wrong key, expelled voter; voteproofs packed with the honest votes of a neighbouring point - next round, next height, other stage - as majority and sign facts, or as one topping-up vote) passed through the real IsValidVoteproofWithSuffrage and vp.IsValid; oracle pairs only accepted voteproofs with different majority facts and asks whether the nodes that signed two different facts number <= f; distinct = (world, kind, k, #majority votes, #other votes, signer pattern, fact style, majority, flags, accepted)")
+	r.SetRule("world = (n real key pairs as suffrage, threshold t, stage INIT/ACCEPT, two facts A and B at one stage point, real signed sign facts of every node for both facts, real expel operations assembled from real node signatures); case = one candidate voteproof (plain / expel / stuck; majority A, B or none; every assignment {absent, votes majority fact, votes other fact, expelled} of the nodes; 8 expel-signer patterns; ballot facts with and without expel facts; variants with repeated sign facts, non-member, wrong key, expelled voter; voteproofs packed with the honest votes of a neighbouring point - next round, next height, other stage - as majority and sign facts, or as one topping-up vote; crafted wire messages that attach a member's genuine sign of the other fact / of the next round / another member's key or signature to this fact, tried before and after the genuine voteproofs) passed through the real IsValidVoteproofWithSuffrage and vp.IsValid; oracle pairs only accepted voteproofs with different majority facts and asks whether the nodes that signed two different facts number <= f; distinct = (world, kind, k, #majority votes, #other votes, signer pattern, fact style, majority, flags, accepted)")
 	r.Assume("every candidate of a world carries the world's threshold (stuck voteproofs: 100, as their validation demands); f = n - ceil(n*t/100) in exact integer arithmetic")
 	r.Assume("who signs an expel operation is unconstrained (statement: any suffrage node may sign expels); equivocation = one suffrage node signing two different ballot facts for the stage point")
 	r.Assume("ballot facts that carry different expel facts are different facts")
+	r.Assume("a crafted sign fact (a member's genuine sign of another fact, of another round, or another member's key/signature, attached to this fact through the wire codec) is not a vote of that member: the member signed only the fact the sign was made for")
 	r.Assume("a sign fact whose ballot fact belongs to another round, height or stage is an honest vote for that other point: it does not make its signer an equivocator at this stage point")
 
 	type wspec struct {
@@ -1105,6 +1325,9 @@ func TestC03(t *testing.T) {
 			w.n, w.th, w.stage, w.f, eqs,
 			kindName[v.a.kind], wa["majority"], wa["expelled"], wa["voters_for_majority"],
 			kindName[v.b.kind], wb["majority"], wb["expelled"], wb["voters_for_majority"])
+		if v.a.cmask != 0 || v.b.cmask != 0 {
+			what += fmt.Sprintf("; crafted sign facts (members who never signed that fact): %v / %v", wa["crafted_sign_facts_of_members_who_never_signed_this_fact"], wb["crafted_sign_facts_of_members_who_never_signed_this_fact"])
+		}
 		if v.a.xmask != 0 || v.b.xmask != 0 {
 			what += fmt.Sprintf("; sign facts that are votes of another point: %v / %v", wa["sign_facts_that_are_votes_of_another_point"], wb["sign_facts_that_are_votes_of_another_point"])
 		}
